@@ -26,6 +26,8 @@ import warnings
 sys.path.insert(0, os.path.dirname(os.path.abspath(__file__)))
 import common
 from translate import tx_tables
+from translate import tx_tpquant
+import c18_typed
 
 warnings.filterwarnings('ignore')
 
@@ -45,6 +47,7 @@ TRANSFORM_VALUES = {'time': 'exp(-t)*Heaviside(t)', 'laplace': '1/(s+1)', 'fouri
                     'angular frequency response': '1/(1+j*omega)', 'norm fourier': '1/(1+j*2*pi*F)',
                     'norm angular fourier': '1/(1+j*Omega)'}
 # transforms that integrate over the source variable and belong to the property's sentence
+PROPS = ['Lcapy/Props/C18.lean', 'Lcapy/Props/C18TP.lean']
 INTEGRAL = {('time', 'laplace'), ('laplace', 'time'), ('time', 'fourier'), ('fourier', 'time'),
             ('time', 'angular fourier'), ('angular fourier', 'time')}
 
@@ -181,6 +184,19 @@ def run(chk, replay=None):
         if not os.path.exists(gen_path) or open(gen_path).read() != text:
             with open(gen_path, 'w') as f:
                 f.write(text)
+    text_tp, info_tp = tx_tpquant.generate(common.REPO)
+    gen_tp = os.path.join(common.LEAN, 'Lcapy', 'Generated', 'QuantitiesTP.lean')
+    with common.LakeLock():
+        if not os.path.exists(gen_tp) or open(gen_tp).read() != text_tp:
+            with open(gen_tp, 'w') as f:
+                f.write(text_tp)
+    info['unparsed'] = info['unparsed'] + info_tp['unparsed']
+    chk.coverage['translator_typed_results'] = {
+        'rows': {k: len(info_tp[k]) for k in ('derived', 'entries', 'attr_derived', 'expect', 'docports', 'wraps', 'netports', 'netwraps')},
+        'expectation_from': ['lean/Lcapy/Spec/TwoPort.lean (Derived.holds, equationNames)', 'lean/Lcapy/Props/C08.lean (X_attr_sound statements)'],
+        'code_from': ['lcapy/twoport.py', 'lcapy/netlistopsmixin.py'],
+        'untyped_returns': [[c, a, how] for c, a, q, how in info_tp['wraps'] if q is None] +
+                           [[m, r, how] for m, r, q, how in info_tp['netwraps'] if q is None]}
     chk.coverage['translator'] = {'status': 'ok' if not info['unparsed'] else 'partial',
                                   'unparsed': info['unparsed'],
                                   'rows': {k: info[k] for k in ('mul_rows', 'div_rows', 'class_rows', 'transform_rows', 'known_dims')},
@@ -194,9 +210,10 @@ def run(chk, replay=None):
         'SI dimensions of the eight unit symbols and of the quantities as written in Lcapy/Spec/Dim.lean (V, A, s exponent vectors)',
         'SymPy unit arithmetic and sympy.physics.units dimension system (Units.simplify_units is modelled only up to equality of its results)']
     # ---- 2. proofs
-    broken = chk.lean(['Lcapy/Props/C18.lean'],
-                      helper_files=['Lcapy/Spec/Dim.lean', 'Lcapy/Model/Quantities.lean', 'Lcapy/Proofs/QuantitiesBase.lean',
-                                    'Lcapy/Generated/Quantities.lean', 'Lcapy/Driver/C18.lean'],
+    broken = chk.lean(PROPS,
+                      helper_files=['Lcapy/Spec/Dim.lean', 'Lcapy/Spec/DimTP.lean', 'Lcapy/Model/Quantities.lean',
+                                    'Lcapy/Proofs/QuantitiesBase.lean', 'Lcapy/Generated/Quantities.lean',
+                                    'Lcapy/Generated/QuantitiesTP.lean', 'Lcapy/Driver/C18.lean'],
                       leanchecker=(chk.tier == 'thorough'))
     drv = chk.get_driver()
     R = Real()
@@ -470,6 +487,7 @@ def run(chk, replay=None):
             run_add(ak, xk, CONFIGS[rng.randrange(8)], ('+', '-', '=='))
     chk.coverage['timing_add_s'] = round(time.time() - t0, 1)
 
+    t_sec = time.time()
     # ---- 3c. **
     pow_items = list(operands.items()) + list(singles.items())
     if replay_input is not None:
@@ -581,9 +599,18 @@ def run(chk, replay=None):
     if replay_input is None or replay_input.get('op') == 'route':
         route_stream(chk, R, ask, violation, quick, replay_input)
 
-    # ---- 3e. circuit-analysis outputs carry the right quantity and units
-    if replay_input is None or 'netlist' in replay_input:
-        circuit_outputs(chk, R, ask, violation)
+    chk.coverage['timing_pow_transform_route_s'] = round(time.time() - t_sec, 1)
+    # ---- 3e. typed results: every two-port class x attribute; every transfer-type netlist method on every route;
+    #          node voltages / branch currents / Voc / Isc in every analysis domain
+    ctx = c18_typed.Ctx(chk, R, ask, violation, wire_domain, ustr)
+    t_sec = time.time()
+    if replay_input is None or replay_input.get('op') == 'twoport':
+        c18_typed.twoport_outputs(ctx, info_tp, quick, rng, replay_input)
+    chk.coverage['timing_twoport_s'] = round(time.time() - t_sec, 1)
+    t_sec = time.time()
+    if replay_input is None or replay_input.get('op') == 'circuit' or (replay_input and 'netlist' in replay_input):
+        c18_typed.circuit_outputs(ctx, quick, rng, replay_input)
+    chk.coverage['timing_circuit_s'] = round(time.time() - t_sec, 1)
 
     # ---- class-default vs operator-units diagnostics (not violations by themselves)
     diag = []
@@ -769,78 +796,6 @@ def route_stream(chk, R, ask, violation, quick, replay_input):
                             chk.count('route', 'values-not-decided-equal')
                     except Exception:   # noqa
                         chk.count('route', 'eq-not-computable')
-
-
-def circuit_outputs(chk, R, ask, violation):
-    """node voltages, branch currents, impedances, admittances, transfer functions of a few
-    circuits, in every analysis domain, carry the quantity and units of their kind"""
-    from lcapy import Circuit
-    nets = {
-        'divider-dc': 'V1 1 0 dc 6\nR1 1 2 2\nR2 2 0 4',
-        'rc-step': 'V1 1 0 step 5\nR1 1 2 2\nC1 2 0 3',
-        'rl-ac': 'V1 1 0 ac 5\nR1 1 2 2\nL1 2 0 3',
-        'rlc-s': 'V1 1 0 {exp(-t)*u(t)}\nR1 1 2 1\nL1 2 3 2\nC1 3 0 1\nR2 3 0 4',
-        'isrc': 'I1 1 0 dc 2\nR1 1 2 3\nR2 2 0 5',
-    }
-    expect_sig = {'V': 'voltage', 'I': 'current'}
-    for name, net in nets.items():
-        cct = Circuit(net)
-        items = []
-        for node in ('1', '2'):
-            for how in ('native', 'time', 'laplace'):
-                items.append(('V', 'node %s %s' % (node, how), lambda n=node, h=how: conv(cct[n].V, h)))
-        for cpt in ('R1',):
-            for how in ('native', 'time', 'laplace'):
-                items.append(('I', 'cpt %s %s' % (cpt, how), lambda c=cpt, h=how: conv(getattr(cct, c).I, h)))
-                items.append(('V', 'cpt %s %s' % (cpt, how), lambda c=cpt, h=how: conv(getattr(cct, c).V, h)))
-        items.append(('Z', 'impedance(2,0)', lambda: cct.impedance(2, 0)))
-        items.append(('Y', 'admittance(2,0)', lambda: cct.admittance(2, 0)))
-        items.append(('H', 'transfer(1,0,2,0)', lambda: cct.transfer(1, 0, 2, 0)))
-        items.append(('Z', 'thevenin.Z', lambda: cct.thevenin(2, 0).Z))
-        items.append(('V', 'thevenin.Voc(s)', lambda: cct.thevenin(2, 0).Voc.laplace()))
-        items.append(('Y', 'norton.Y', lambda: cct.norton(2, 0).Y))
-        for kind, label, f in items:
-            try:
-                r = f()
-            except Exception as e:   # noqa
-                chk.count('circuit', 'not-computable')
-                continue
-            want = {'V': 'voltage', 'I': 'current', 'Z': 'impedance', 'Y': 'admittance', 'H': 'transfer'}[kind]
-            outs = list(r.values()) if hasattr(r, 'decompose') and hasattr(r, 'values') and not hasattr(r, 'sympy') else [r]
-            for o in outs:
-                if not hasattr(o, 'quantity'):
-                    continue
-                chk.count('circuit', kind)
-                chk.case(('circuit', name, label, type(o).__name__), True)
-                uv = R.units_vec(o.units) if hasattr(o, 'units') else None
-                bad = None
-                if o.quantity != want:
-                    bad = 'quantity %s, expected %s' % (o.quantity, want)
-                elif uv is None:
-                    bad = 'units %s not a monomial' % (o.units,)
-                else:
-                    d = getattr(o, 'domain', None)
-                    if ask('q.labelok %s %s' % (o.quantity, ','.join(map(str, uv)))) != 'true':
-                        bad = 'units %s do not have the dimension of a %s' % (o.units, want)
-                    elif d in WIRE and d != 'superposition' and ask('q.freshok %s %s %s' % (wire_domain(d), o.quantity, ','.join(map(str, uv)))) != 'true':
-                        bad = 'units %s do not have the dimension expected of a %s in the %s domain' % (o.units, want, d)
-                if bad:
-                    violation({'kind': 'circuit-output', 'output': kind, 'domain': getattr(o, 'domain', None)},
-                              {'netlist': net, 'query': label}, {'class': type(o).__name__, 'units': str(getattr(o, 'units', None))},
-                              'analysis outputs carry the quantity and units of their kind', bad)
-
-
-def conv(x, how):
-    if how == 'native':
-        return x
-    if how == 'time':
-        return x.time() if hasattr(x, 'time') else x(R_t())
-    return x.laplace()
-
-
-def R_t():
-    import lcapy
-    return lcapy.t
 
 
 if __name__ == '__main__':
